@@ -111,7 +111,7 @@ CLAIMED = {
    note=BASE + "The browser's JS parser ~ the JS-literal decoder of the spec; hydrate-side wasm code, streaming / islands rendering not executed. Locale names / unit ids are pushed unescaped (identifiers): explicit hypothesis UnitNamesOk.", tech="Lean 4 proof (encoder/decoder round trip by induction) + differential correspondence", ref="§6 C17, notes/C17.md"),
  "C18": dict(
    text="Theorems: C18_formatter_args (from_name_and_args = the documented option table: first recognised occurrence else default), C18_unknown_option_ignored, C18_whitespace_insensitive, C18_unknown_name, C18_t_format_agrees (file syntax and t*_format! agree), with C06_populate_subst for formatted variables reached through `$t(..)` (checked on every clause), "
-        "C18_cache_memo / _commutes / _threads (every request served make(key) whatever the history or schedule of atomic steps). Correspondence: exhaustive option product x whitespace variants through the real parser, every clause also through `$t(..)` references; formatted output vs direct ICU4X calls on 8 locales, also in a build WITHOUT icu_compiled_data behind a recording custom provider (every constructor asked for exactly once with the right locale and options); t_format! views following set_locale; request histories in one process; 16-thread races (support).",
+        "C18_cache_memo / _commutes / _threads (every request served make(key) whatever the history or schedule of atomic steps). Correspondence: exhaustive option product x whitespace variants through the real parser, every clause also through `$t(..)` references; formatted output vs direct ICU4X calls on 8 locales, also in a build WITHOUT icu_compiled_data behind a recording custom provider (every constructor asked for exactly once with the right locale and options); t_format! views following set_locale; request histories in one process; 16-thread races (support). The custom-provider stage runs twice, same requests: behind a hand-written IcuDataProvider impl and behind the impl generated by #[derive(IcuDataProvider)] over baked DataProviders (outputs vs ICU4X; recorded constructor calls / data loads vs the requests).",
    note=BASE + "ICU4X output is the oracle (no theorem); RwLock atomicity and leaked formatters trusted. Known finding C18-zone: time_length full|long cannot be rendered.", tech="Lean 4 proof + differential correspondence + ICU4X oracle", ref="§6 C18, notes/C18.md"),
  "C19": dict(
    text="Theorems over Config.new: C19_default_first (default first, present, no duplicates, set = listed + default), C19_duplicates_rejected, C19_inherits_valid / _unknown_rejected / _default_inherits_rejected, C19_required_fields, C19_unknown_ignored, "
